@@ -23,6 +23,12 @@ def make(case):
         x = rng.integers(-10, 11, size=shape).astype(np.float64)
         flat = x.ravel()
         flat[rng.integers(0, flat.size, size=max(1, flat.size // 10))] = 4096.0
+    elif k == "huge":
+        # one sample ~1e6 times the spread (exact in float32): robust scales ignore it, and a guard against a
+        # vanishing scale must not be relative to the largest sample
+        x = rng.integers(-10, 11, size=shape).astype(np.float64)
+        flat = x.ravel()
+        flat[int(rng.integers(0, flat.size))] = float(2 ** 23)
     else:
         x = rng.integers(-64, 65, size=shape).astype(np.float64) / 4.0
     if k == "lane-const" and x.ndim == 2:
@@ -54,7 +60,7 @@ class C15(Prop):
         axis = rng.choice(("None", 0)) if nd == 1 else rng.choice(("None", 0, 1))
         return {"kind": kind, "scale": rng.choice(SCALES), "loc": rng.choice(LOCS + ("norm",)), "shape": shape,
                 "axis": axis, "a": rng.choice((1.0, -1.0, 0.015625, 64.0, -2.0, 0.25, -100.0 * 0 + -32.0)),
-                "b": rng.choice((0.0, 3.0, -1024.0, 0.5)), "dkind": rng.choice(("rand", "rand", "ties", "outliers", "const", "lane-const")),
+                "b": rng.choice((0.0, 3.0, -1024.0, 0.5)), "dkind": rng.choice(("rand", "rand", "ties", "outliers", "const", "lane-const", "huge")),
                 "dseed": rng.randrange(1 << 30), "order": rng.choice(("C", "C", "F"))}
 
     def gen(self, rng, tier):
